@@ -190,16 +190,17 @@ def Upd.ap : Upd → Option (List Nat) → Option (List Nat)
 
 namespace Pri
 
+/-- a location: the number of the record (the n-th Put gets location n) -/
 abbrev Loc := Nat
 
 inductive Op (R : Type) where
   | put (r : R)
-  | get (l : Loc)
+  | get (l : Nat)
   | flush
 deriving DecidableEq, Repr
 
 inductive Res (R : Type) where
-  | loc (l : Loc)               -- Put: the location allocated
+  | loc (l : Nat)               -- Put: the location allocated
   | got (r : Option R)          -- Get: the record (none = nothing readable there: EOF)
   | outOfBounds                 -- Get: ErrOutOfBounds
   | flushed
@@ -207,7 +208,7 @@ deriving DecidableEq, Repr
 
 inductive Pc (R : Type) where
   | idle
-  | getChecked (l : Loc)        -- getCached found nothing: the record is to be read from the file
+  | getChecked (l : Nat)        -- getCached found nothing: the record is to be read from the file
   | flSwapped
   | flWritten
 deriving DecidableEq, Repr
@@ -221,7 +222,7 @@ deriving DecidableEq, Repr
 /-- a pool: the location of its first record and its records, in allocation order
     (`refs` of the code maps location ↦ index in `blocks`) -/
 structure Pool (R : Type) where
-  base : Loc := 0
+  base : Nat := 0
   blocks : List R := []
 deriving DecidableEq, Repr
 
@@ -230,7 +231,7 @@ structure State (R : Type) where
   skipPools : Bool := false
   next : Pool R := {}
   cur : Pool R := {}
-  recPos : Loc := 0             -- the next location Put will hand out
+  recPos : Nat := 0             -- the next location Put will hand out
   file : List R := []           -- append-only: location = position
   flushLock : Option Nat := none
   threads : List (Thread R) := []
@@ -238,10 +239,10 @@ deriving DecidableEq, Repr
 
 variable {R : Type}
 
-def Pool.get (p : Pool R) (l : Loc) : Option R := if p.base ≤ l then p.blocks[l - p.base]? else none
+def Pool.get (p : Pool R) (l : Nat) : Option R := if p.base ≤ l then p.blocks[l - p.base]? else none
 
 /-- the record at a location, as `Get` finds it -/
-def view (s : State R) (l : Loc) : Option R := (s.next.get l).or ((s.cur.get l).or s.file[l]?)
+def view (s : State R) (l : Nat) : Option R := (s.next.get l).or ((s.cur.get l).or s.file[l]?)
 
 def ret (t : Thread R) (r : Res R) : Thread R := { prog := t.prog.tail, pc := .idle, out := t.out ++ [r] }
 
